@@ -43,6 +43,20 @@
      fluent_query_end_to_end_no_first / fluent_callables_end_to_end_no_first
                                       operator_chain_means_direct / captured_literals_chain_means_direct carried
                                       through all three backend passes: NO component hypothesis left for such chains.
+     fluent_query_end_to_end_plain    the same with NO side condition on the built query: [simplifiable_chain W bs ch] is a
+                                      boolean on the chain itself (plain_chain, and stage by stage for the lowered lambda
+                                      l1 = lambda p: sugar(body): remove_empty leaves l1 alone, its operator method calls
+                                      carry no keywords, and agg (ext l1) - computed by the models on that one lambda - is
+                                      wfq, uses no name arg_N, binds only names of [bs], does not mention First);
+                                      [Forall (nofun B) bs] is the only fact about the backend and the names.  Proved by
+                                      showing that such a chain builds a spine Op_n(..Op_1(EventDataset(), l_1).., l_n)
+                                      (acquire / follow are the identity there, no MetaData wrapper), that remove_empty,
+                                      ext and agg are homomorphic on a spine and on the terminal node, and that wfq,
+                                      reserved names, binders, First and ops_kw_free of a spine are the conjunction over
+                                      its lambdas ([chain_query_is_admissible]).  Restriction made: the per-lambda
+                                      conditions are evaluated AFTER ext and agg of that lambda (a purely syntactic
+                                      sufficient condition on the written body is not derived); bs must contain the
+                                      parameters acc, v of the aggregate folds when a body uses len/Count/Sum/Max/Min.
    WHAT IS PROVED RELATIVE TO NAMED HYPOTHESES ABOUT COMPONENT MODELS (each is a statement about a model, not the code)
      query_means_chain                for every chain (callables, typed datasets): relative to
         capture_sound B ops    :  Capture.parse_callable refines the meaning of a lambda under its captured values
@@ -66,7 +80,7 @@ From FA.Gen Require Import Tables TablesStream TablesTypes.
 From FA.Model Require Import TypeDefs Pipeline.
 From FA.Model Require Capture Sugar TypeFollow MetaData ExtCalls Aggregate.
 From FA.Proofs Require Import Refine RenameSem SimplifyTotal SimplifyInv SimplifyRules SimplifySound CaptureSem TypeFollowUntyped
-  PipelineFacts PipelineSem PipelineCapture PipelineSimp.
+  PipelineFacts PipelineSem PipelineCapture PipelineSimp PipelineAdm.
 
 (* ---------------- the backend passes ---------------- *)
 
@@ -211,6 +225,29 @@ Theorem fluent_query_end_to_end_no_first :
       eval B ext_default_ops [] q' = Some (VList r).
 Proof. exact end_to_end_no_first_x. Qed.
 Print Assumptions fluent_query_end_to_end_no_first.
+
+(* the side conditions follow from a boolean condition on the chain *)
+Theorem chain_query_is_admissible :
+  forall (W : world) (bs : list string) ch term q,
+    ft_plain (w_ft W) -> simplifiable_chain W bs ch = true -> query W TAny ch term = POk q ->
+    ExtCalls.ops_kw_free ext_default_ops q = true /\
+    exists q1, Aggregate.agg (ExtCalls.ext q) = Some q1 /\
+      wfq q1 = true /\ P_fresh q1 = true /\ P_binders bs q1 = true /\ P_nofirst q1 = true.
+Proof. exact simplifiable_facts. Qed.
+Print Assumptions chain_query_is_admissible.
+
+Theorem fluent_query_end_to_end_plain :
+  forall (B : backend) (W : world) (fuel : nat) (bs : list string),
+    backend_ok B -> md_identity B -> terminals_ok B -> ft_plain (w_ft W) -> Forall (nofun B) bs ->
+    forall ch term q q' data r,
+      dataset B data ->
+      simplifiable_chain W bs ch = true ->
+      query W TAny ch term = POk q ->
+      backend_passes fuel q = Some q' ->
+      direct B ext_default_ops ch data = Some r ->
+      eval B ext_default_ops [] q' = Some (VList r).
+Proof. exact end_to_end_plain_x. Qed.
+Print Assumptions fluent_query_end_to_end_plain.
 
 Theorem fluent_callables_end_to_end_no_first :
   forall (B : backend) (W : world) (fuel : nat),
@@ -390,6 +427,18 @@ Proof.
   intros q1 H. vm_compute in H. inversion H; subst q1; clear H.
   split; [vm_compute; reflexivity|]. split; [vm_compute; reflexivity|].
   apply admissible_decided; [vm_compute; reflexivity|].
+  repeat (constructor; [split; [reflexivity | intros; reflexivity]|]). constructor.
+Qed.
+
+(* every hypothesis of fluent_query_end_to_end_plain met by chain3: the condition on the chain by computation, the
+   three parameter names unknown to B3 as functions; a chain that counts needs the fold parameters acc, v in bs *)
+Example chain3_is_simplifiable :
+  simplifiable_chain W0 ["e"; "j"; "t"] ch3 = true /\ Forall (nofun B3) ["e"; "j"; "t"] /\
+  simplifiable_chain W0 ["e"] [asis OpSelect (Lambda ["e"] (Call (Name "len") [Attr e_ "jets"] [] []))] = false /\
+  simplifiable_chain W0 ["e"; "acc"; "v"] [asis OpSelect (Lambda ["e"] (Call (Name "len") [Attr e_ "jets"] [] []))] = true /\
+  simplifiable_chain W0 ["e"; "j"] [asis OpSelect (Lambda ["e"] (Call (Attr (Attr e_ "jets") "First") [] [] []))] = false.
+Proof.
+  split; [vm_compute; reflexivity|]. split; [|repeat split; vm_compute; reflexivity].
   repeat (constructor; [split; [reflexivity | intros; reflexivity]|]). constructor.
 Qed.
 
